@@ -34,18 +34,18 @@ PID = "C16"
 PKG = "yv-c16"
 
 # name: (cfg, names, vals, pos, trace cfg)
+QUICK = [
+    ("MC_VarSet_q1.cfg", "x", "a,b", "none", "Trace_VarSet_1.cfg"),    # 1 name, 2 values, all attributes, 3 contexts
+    ("MC_VarSet_q2.cfg", "x,y", "a", "none", "Trace_VarSet_2.cfg"),    # 2 names, 2 contexts
+    ("MC_VarSet_q3.cfg", "x", "a", "some", "Trace_VarSet_1.cfg"),      # positional parameters
+]
 CONFIGS = {
-    "quick": [
-        ("MC_VarSet_q1.cfg", "x", "a,b", "none", "Trace_VarSet_1.cfg"),
-        ("MC_VarSet_q2.cfg", "x,y", "a", "none", "Trace_VarSet_2.cfg"),
-        ("MC_VarSet_q3.cfg", "x", "a", "some", "Trace_VarSet_1.cfg"),
-    ],
-    "thorough": [
-        ("MC_VarSet_q1.cfg", "x", "a,b", "none", "Trace_VarSet_1.cfg"),
-        ("MC_VarSet_q2.cfg", "x,y", "a", "none", "Trace_VarSet_2.cfg"),
-        ("MC_VarSet_q3.cfg", "x", "a", "some", "Trace_VarSet_1.cfg"),
-        ("MC_VarSet_t1.cfg", "x", "a,b", "none", "Trace_VarSet_1.cfg"),
-        ("MC_VarSet_t2.cfg", "x,y", "a,b", "none", "Trace_VarSet_2.cfg"),
+    "quick": QUICK,
+    "thorough": QUICK + [
+        ("MC_VarSet_t1.cfg", "x", "a,b", "none", "Trace_VarSet_1.cfg"),    # 4 contexts, 2 values, read-only
+        ("MC_VarSet_t2.cfg", "x", "a,b", "none", "Trace_VarSet_1.cfg"),    # 4 contexts, all attributes
+        ("MC_VarSet_t3.cfg", "x,y", "a,b", "none", "Trace_VarSet_2.cfg"),  # 2 names, 2 values
+        ("MC_VarSet_t4.cfg", "x,y,z", "a", "none", "Trace_VarSet_3.cfg"),  # 3 names
     ],
 }
 
@@ -211,7 +211,7 @@ def run(tier):
     replayed_states = replayed_steps = 0
     for cfg, names, vals, pos, tcfg in CONFIGS[tier]:
         gen = os.path.join(wd, cfg + ".states.ndjson")
-        r = _cached_tlc("VarSet", cfg, gen, dict(workers=8, coverage=(cfg == "MC_VarSet_q1.cfg"),
+        r = _cached_tlc("VarSet", cfg, gen, dict(workers=8, coverage=(cfg in ("MC_VarSet_q1.cfg", "MC_VarSet_q3.cfg")),
                                                  timeout=3000, want_lines=True))
         vlib.tlc_must_pass(r, f"VarSet refines VarRef ({cfg})")
         vlib.log(f"[p1] {cfg}: refinement + representation invariant hold; {r.distinct} distinct states, "
